@@ -223,6 +223,30 @@ where
         Ok(())
     }
 
+    /// Delete the events in an event log that come after
+    /// the first `keep` events.
+    pub fn delete_tail(
+        &self,
+        log_type: EventLogType,
+        account_or_folder_id: i64,
+        keep: usize,
+    ) -> Result<usize, SqlError> {
+        let table: EventTable = log_type.into();
+        let query = format!(
+            r#"
+            DELETE FROM {table}
+            WHERE {id}=?1 AND event_id NOT IN (
+                SELECT event_id FROM {table}
+                WHERE {id}=?1 ORDER BY event_id ASC LIMIT ?2
+            )
+            "#,
+            table = table.as_str(),
+            id = table.id_column(),
+        );
+        let mut stmt = self.conn.prepare_cached(&query)?;
+        stmt.execute((account_or_folder_id, keep as i64))
+    }
+
     /// Insert events into an event log table.
     pub fn insert_events(
         &self,
